@@ -23,6 +23,11 @@ PROPS = {
                 floors=dict(FAMS, **{"wavelet-weight-queries": 0.03}),
                 assumptions=["ThreadSanitizer reports every data race between the executed calls (happens-before analysis; it does not depend on the actual interleaving)",
                              "deadlocks and lost wake-ups that need one specific interleaving are only reachable through the start jitter"]),
+    "C18": dict(flavour="tsan", binary="vdrive_tsan", level="exploration", props_dir="props_tsan", hang_is_violation=True,
+                quick=dict(cases=2500, size=200, wall=900, case_budget=40, shards=8), thorough=dict(cases=150000, size=300, wall=3000, case_budget=60),
+                floors=dict(FAMS, **{"mode:load": 0.1, "budget<workers": 0.08, "budget<=loaded": 0.05, "tolerance-reached-early": 0.03, "latency:skewed": 0.5}),
+                assumptions=["ThreadSanitizer reports every data race between the executed threads (happens-before analysis)",
+                             "worker schedules are perturbed by generated model latencies, not enumerated: a deadlock or lost wake-up that needs one specific interleaving can be missed"]),
     "C06": grid_prop(40000, 1500000,
                      floors={"fam:global": 0.08, "fam:sequence": 0.08, "fam:localp": 0.08, "fam:wavelet": 0.08, "fam:fourier": 0.08,
                              "fmt:ascii": 0.35, "sec:pending": 0.04, "sec:construction": 0.04, "sec:transform": 0.04, "sec:limits": 0.04}),
@@ -35,6 +40,11 @@ NOT_APPLICABLE = {}
 
 _TB = "Trusted base: the harness (decoder, reference models, oracles) and the sanitizer runtimes; generation is random, so absence of violations is evidence for the explored distribution only (reported in the evidence file)."
 META = {
+    "C18": dict(technique="property-based testing (rapidcheck, structure-aware byte decoder) of the threaded addons under ThreadSanitizer, with a logged model callback (exactly-once, per-id overlap flag, budget count), generated latencies and a watchdog for termination",
+                text="Parallel constructSurrogate (tolerance and anisotropic overloads) and the threaded loadNeededValues (needed / overwrite, array and vector models) are run on generated grids with generated budgets (below, at and above the candidate pool, the worker count and the number of "
+                     "already loaded points), 1-8 workers, batches 1-4 and per-call latency scripts. The model log must show no point evaluated twice, no two overlapping calls with one thread id and at most max_num_points samples; the call must return; every loaded point must carry "
+                     "the value computed for its coordinate and the surrogate must reproduce it; ThreadSanitizer must stay silent. Exploration.",
+                note="Trusted base: ThreadSanitizer, the harness. A reproducible watchdog hit (three isolated replays) is reported as a deadlock."),
     "C12": dict(technique="property-based testing (rapidcheck, structure-aware byte decoder) of generated multisets of const calls run from 2-8 threads under ThreadSanitizer, with a sequential pre-pass as the reference for every result",
                 text="For generated grid states of all families, generated per-thread lists of const calls (evaluate*, weights, integrate, differentiate, hierarchical functions, getters, polynomial space, anisotropic estimate, write, copy construction) are released together "
                      "from 2-8 threads; ThreadSanitizer must stay silent and every call must return bitwise what it returns when run alone. Schedules are sampled, not enumerated. Exploration.",
